@@ -18,6 +18,8 @@ for h in hdr:
 out.append(f"From QV Require Import Props.{pid}.")
 for mm in re.finditer(r"^(Import [A-Za-z_.]+\.)[ \t]*$", src, re.M):
     out.append(mm.group(1))
+for mm in re.finditer(r"^(Local Notation [^\n]*\.)[ \t]*$", src, re.M):
+    out.append(mm.group(1))
 for mm in re.finditer(r"^(Local (?:Open|Close) Scope [A-Za-z_]+\.)[ \t]*$", src, re.M):
     out.append(mm.group(1))
 for mm in re.finditer(r"^Theorem\s+([A-Za-z0-9_']+)\s*:(.*?)\nProof\.", src, re.M | re.S):
